@@ -1,8 +1,9 @@
 """C14 - the binary reader never reads outside its buffer and decodes exactly.
 
-spec -> impl : TLC explores MC_BinaryReader (every distinct reader object over small buffers,
-               every operation on it), checks the design invariants and prints one CASE per
-               object; the harness replays every CASE on the real ReadScope/ReadCtxt/ReadArray.
+spec -> impl : TLC explores MC_BinaryReader (every distinct reader object over small buffers and, with the
+               composite element types whose fields all differ in size, over wide buffers; every operation on
+               it), checks the design invariants and prints one CASE per object; the harness replays every CASE
+               on the real ReadScope/ReadCtxt/ReadArray/ReadArrayCow/ReadCache.
 impl -> spec : random scripts over larger buffers with exotic arguments are recorded and judged
                by Trace_BinaryReader (same Apply operator).
 """
@@ -18,11 +19,28 @@ LEVEL = "model_checking"
 ASSUMPTIONS = [
     "the read hook (cfg allsorts_verif) reports every primitive unchecked read; reads that bypass "
     "ReadCtxt::read_unchecked_* (plain slice indexing, bounds-checked by Rust) are seen only through their results",
-    "values are compared through their big-endian byte image (std to_be_bytes is trusted)",
+    "values are compared through their big-endian byte image (std to_be_bytes is trusted); the value of a tuple is "
+    "the concatenation of the images of its fields",
     "HUGE stands for every usize above 30000; eight concrete representatives are executed per HUGE argument",
     "objects are plain values: an operation on one object cannot affect another (Rust ownership), which is what "
-    "justifies exploring one focus object per state",
+    "justifies exploring one focus object per state; a ReadCache is the one piece of shared state and is carried "
+    "by the model",
+    "ReadScope.base (private) is read from the derived Debug output ('base: N') and confirmed through PartialEq "
+    "against a scope built with ReadScope::new + offset; if the Debug text is not understood PartialEq alone is used",
 ]
+
+# composite element types whose fields all differ in size: shape = "<arity>:<field sizes>"
+SHAPES = ["2:1-2", "2:2-4", "2:4-8", "2:8-1", "3:1-2-4", "3:2-4-8", "3:4-8-1", "3:8-1-2", "3:1-3-2",
+          "4:1-2-4-8", "4:2-4-8-1", "4:4-8-1-2", "4:8-1-2-4", "2x2:2-1-8-4", "nt4:4-1-8-2", "nt3:4-1-2"]
+# what the generated cases must exercise for every shape ...
+FAMILIES = ["read.ok", "read.eof", "array.nonempty", "array.eof", "upto.nonempty", "item.ok", "item.fail",
+            "iter.one", "iter.many", "search.found", "search.notfound"]
+# ... and strided arrays with a gap between the elements for at least these
+STRIDED = ["2:1-2", "2:2-4", "2:8-1", "3:1-2-4", "3:4-8-1", "4:1-2-4-8", "4:8-1-2-4", "2x2:2-1-8-4", "nt4:4-1-8-2"]
+# every scope-producing operation must have to produce a non-zero base on a non-empty window
+BASE_OPS = ["Offset", "OffsetLength", "Ctxt", "ReadScope", "CtxtScope", "ScopeOwned"]
+# operations the recorded scripts must have executed with every shape (counted on the harness' choices)
+REC_OPS = ["ReadT", "ScopeRead", "ReadArray", "ReadArrayStride", "ReadArrayUpto", "GetItem", "Iter", "Search"]
 
 
 def _errclass(e):
@@ -38,9 +56,6 @@ def _errclass(e):
 def _key(m):
     o, want, got = m["o"], m["want"], m["got"]
     diff = sorted(k for k in want if got.get(k) != want.get(k))
-    strided = ""
-    if o["op"] == "ReadArrayStride":
-        strided = ""
     return "%s|want=%s|got=%s|diff=%s" % (o["op"], _errclass(want["err"]), _errclass(got["err"]), ",".join(diff))
 
 
@@ -48,6 +63,98 @@ def _mk_viol(m, source):
     return Violation(_key(m), "%s: %s want %s got %s" % (source, vlib.short(m["o"], 120),
                                                        vlib.short(m["want"], 160), vlib.short(m["got"], 200)),
                      {"source": source, **m})
+
+
+def _obs(**kw):
+    o = {"ok": True, "err": "", "v": [], "num": 0, "cnt": 0, "new": [], "rem": -1, "touched": [], "aux": []}
+    o.update(kw)
+    return o
+
+
+def _op(op, t, ty="", a=0, b=0, key=None):
+    return {"op": op, "t": t, "ty": ty, "a": a, "b": b, "key": key or []}
+
+
+def _planted_events():
+    """Binding self-check of the judge: hand-written events over the buffer 1..8 (nothing here comes from
+    allsorts). Each case is correct up to its last event, which is wrong in exactly one fact."""
+    root = [1, 2, 3, 4, 5, 6, 7, 8]
+    cases = {
+        # a read that returns the neighbouring byte
+        "selftest-value": [
+            ("Ctxt", _op("Ctxt", 1), _obs(new=[0, 8, 0, 1])),
+            ("ReadM", _op("ReadM", 2, "u8"), _obs(v=[2], num=2, rem=7, touched=[0])),
+        ],
+        # a sub-window that keeps its parent's base (right bytes, wrong position)
+        "selftest-base": [
+            ("OffsetLength", _op("OffsetLength", 1, "", 2, 3), _obs(new=[2, 3, 0, 1])),
+        ],
+        # a (U8, U16Be, U32Be) whose third field is decoded one byte early (as if the second field had size 1)
+        "selftest-tuple": [
+            ("ScopeRead", _op("ScopeRead", 1, "t124"), _obs(v=[1, 2, 3, 3, 4, 5, 6], touched=[0, 1, 2, 3, 4, 5, 6])),
+        ],
+        # a cached read through another window that answers with the first window's value
+        "selftest-cache": [
+            ("ReadCache", _op("ReadCache", 1, "u16"), _obs(v=[1, 2], num=258, touched=[0, 1])),
+            ("OffsetLength", _op("OffsetLength", 1, "", 2, 2), _obs(new=[2, 2, 2, 1])),
+            ("ReadCache", _op("ReadCache", 2, "u16"), _obs(v=[1, 2], num=258)),
+        ],
+    }
+    evs, bad = [], {}
+    i = 10 ** 8
+    for cid, steps in cases.items():
+        i += 1
+        evs.append({"i": i, "case": cid, "ev": "Init", "a": {"root": root}, "o": {}})
+        for ev, a, o in steps:
+            i += 1
+            evs.append({"i": i, "case": cid, "ev": ev, "a": a, "o": o})
+        bad[cid] = i        # the last event of the case is the corrupted one
+    return evs, bad
+
+
+def _planted_case():
+    """Binding self-check of the replay: a case whose expectation no reader can meet (three bytes from a u8)."""
+    return {"root": [1, 2, 3, 4], "path": [], "focus": 1, "selftest": True,
+            "fan": [{"o": _op("ScopeRead", 1, "u8"), "exp": _obs(v=[1, 2, 3], num=1, touched=[0])}]}
+
+
+def _vacuity(counters, rec_counters):
+    """Names of the required situations that the generated cases / recorded scripts did not contain."""
+    missing = []
+    for sh in SHAPES:
+        for f in FAMILIES:
+            if counters.get("shape|%s|%s" % (sh, f), 0) == 0:
+                missing.append("generated %s %s" % (sh, f))
+    for sh in STRIDED:
+        if counters.get("shape|%s|stride.nonempty.gap" % sh, 0) == 0:
+            missing.append("generated %s stride.nonempty.gap" % sh)
+    for op in BASE_OPS:
+        if counters.get("base|%s|positioned" % op, 0) == 0:
+            missing.append("generated %s with a non-zero base on a non-empty window" % op)
+    for op in ("Offset", "OffsetLength"):
+        if counters.get("base|%s|huge" % op, 0) == 0:
+            missing.append("generated %s with a huge base" % op)
+    for k in ("cache|hit", "cache|miss", "eq|0", "eq|1"):
+        if counters.get(k, 0) == 0:
+            missing.append("generated " + k)
+    missing_rec = []
+    for sh in SHAPES:
+        for op in REC_OPS:
+            if rec_counters.get("rec|%s|%s" % (sh, op), 0) == 0:
+                missing_rec.append("recorded %s %s" % (sh, op))
+    for op in ("ReadCache", "ScopeEq", "ScopeOwned", "ReadDep", "OwnIter", "OwnGetItem", "IntoIter", "ReadToVec"):
+        if rec_counters.get("recop|" + op, 0) == 0:
+            missing_rec.append("recorded " + op)
+    return missing, missing_rec
+
+
+def _per_shape(counters):
+    out = {}
+    for k, v in counters.items():
+        if k.startswith("shape|"):
+            _, sh, fam = k.split("|")
+            out.setdefault(sh, {})[fam] = v
+    return out
 
 
 def run(ctx):
@@ -63,8 +170,10 @@ def run(ctx):
                 n_cases[0] += 1
                 if len(sample_cases) < 2 and '"path":[{' in payload and len(payload) < 60000:
                     sample_cases.append(payload)
-        mc = vlib.run_tlc(ctx, "MC_BinaryReader", cfg, "mc", workers=8, timeout=1500 if not ctx.quick else 600,
+        mc = vlib.run_tlc(ctx, "MC_BinaryReader", cfg, "mc", workers=4, timeout=1800 if not ctx.quick else 600,
                           sink=sink)
+        fc.write(json.dumps(_planted_case()) + "\n")
+    planted_ci = n_cases[0]          # index of the planted case in the file
     ctx.note("MC_BinaryReader: %d states generated, %d distinct, depth %d, %d cases (%.1fs)" %
              (mc.generated, mc.distinct, mc.depth, n_cases[0], mc.wall))
     if n_cases[0] == 0:
@@ -74,63 +183,82 @@ def run(ctx):
     mism_path = ctx.path("mismatches.ndjson")
     search_trace = ctx.path("search_trace.ndjson")
     rep = vlib.run_harness(binp, ["replay", cases_path, mism_path, search_trace])
+    counters = rep.pop("counters", {})
     ctx.note("replay: %s" % json.dumps(rep))
     violations = []
+    planted_case_seen = False
     for m in vlib.read_ndjson(mism_path):
+        if m["case"] == planted_ci:
+            planted_case_seen = True
+            continue
         violations.append(_mk_viol(m, "generated"))
+    if not planted_case_seen:
+        raise vlib.ToolError("binding self-check failed: the replay accepted a case with an impossible expectation")
 
     # impl -> spec
-    n_rec_cases, n_ops = (300, 40) if ctx.quick else (6000, 60)
+    n_rec_cases, n_ops, maxlen = (2500, 40, 3000) if ctx.quick else (40000, 80, 12000)
     trace = ctx.path("trace.ndjson")
-    rec = vlib.run_harness(binp, ["record", ctx.seed, n_rec_cases, n_ops, trace])
+    def verdict_from_replay_only(stage, e):
+        # the generated cases already refute the property on this tree: report them; the failure of a later
+        # stage on a non-conforming implementation is noted, not allowed to mask the verdict
+        ctx.note("%s failed (%s); reporting the %d replay violations" % (stage, str(e).splitlines()[0][:300],
+                                                                        len(violations)))
+        vlib.finish(ctx, LEVEL, {"states": mc.distinct, "transitions": rep.get("ops_executed", 0),
+                                 "traces_validated_against_impl": n_cases[0], "samples": sample_cases[:1] or ["-"],
+                                 "explanation": "%s did not complete; verdict from generated cases only" % stage},
+                    violations, ASSUMPTIONS)
+
+    try:
+        rec = vlib.run_harness(binp, ["record", ctx.seed, n_rec_cases, n_ops, maxlen, trace])
+    except vlib.ToolError as e:
+        if not violations:
+            raise
+        verdict_from_replay_only("recording", e)
+    rec_counters = rec.pop("counters", {})
     ctx.note("record: %s" % json.dumps(rec))
-    # binding self-check: a corrupted copy of one recorded read must be rejected by the judge
-    events = vlib.read_ndjson(trace)
-    planted = None
-    for idx, e in enumerate(events):
-        if e["ev"] in ("ReadM", "ReadT") and e["o"]["ok"] and e["o"]["v"]:
-            # replay the case prefix up to this event under a new case id with one byte flipped
-            case = e["case"]
-            prefix = [x for x in events[:idx + 1] if x["case"] == case]
-            planted = [dict(x, case="selftest-corrupt", i=10 ** 8 + k) for k, x in enumerate(prefix)]
-            bad = json.loads(json.dumps(planted[-1]))
-            bad["o"]["v"][0] = (bad["o"]["v"][0] + 1) % 256
-            planted[-1] = bad
-            break
-    if planted is None:
-        raise vlib.ToolError("no successful read recorded: trace is vacuous")
+    missing, missing_rec = _vacuity(counters, rec_counters)
+    if missing:
+        # computed from what TLC generated: independent of the tree under test
+        raise vlib.ToolError("vacuous generation: " + "; ".join(missing[:12]))
+    if missing_rec and not violations:
+        raise vlib.ToolError("vacuous recording: " + "; ".join(missing_rec[:12]))
+    sample_events = []
+    with open(trace) as f:
+        for ln in f:
+            if len(sample_events) >= 4:
+                break
+            sample_events.append(json.loads(ln))
+    # binding self-check: hand-written cases, each with exactly one wrong fact, must be rejected at that event
+    planted, planted_bad = _planted_events()
     with open(trace, "a") as f:
         for x in planted:
             f.write(json.dumps(x) + "\n")
     with open(trace, "a") as f, open(search_trace) as g:
-        f.write(g.read())
+        for ln in g:
+            f.write(ln)
+    n_parts = 4 if ctx.quick else 8
     try:
         total, mism = vlib.judge_trace_parallel(ctx, "Trace_BinaryReader", "Trace_BinaryReader.cfg", trace, "judge",
-                                                parts=4 if ctx.quick else 12)
+                                                parts=n_parts, timeout=2400)
     except vlib.ToolError as e:
         if not violations:
             raise
-        # the generated cases already refute the property on this tree: report them; the judge's failure on
-        # a trace of a non-conforming implementation is noted, not allowed to mask the verdict
-        ctx.note("judge failed on the recorded trace (%s); reporting the %d replay violations" %
-                 (str(e).splitlines()[0], len(violations)))
-        vlib.finish(ctx, LEVEL, {"states": mc.distinct, "transitions": rep.get("ops_executed", 0),
-                                 "traces_validated_against_impl": n_cases[0], "samples": sample_cases[:1] or ["-"],
-                                 "explanation": "trace judge did not complete; verdict from generated cases only"},
-                    violations, ASSUMPTIONS)
+        verdict_from_replay_only("trace judge", e)
     ctx.note("judge: %d events, %d mismatches" % (total, len(mism)))
     seen_case = set()
-    planted_seen = False
+    planted_hit = {}
     for m in sorted(mism, key=lambda m: m["i"]):
-        if m["case"] == "selftest-corrupt":
-            planted_seen = True
+        if m["case"] in planted_bad:
+            planted_hit.setdefault(m["case"], []).append(m["i"])
             continue
         if m["case"] in seen_case:
             continue      # later events of a diverged case are consequences of the first
         seen_case.add(m["case"])
         violations.append(_mk_viol(m, "recorded"))
-    if not planted_seen:
-        raise vlib.ToolError("binding self-check failed: the corrupted event was accepted by Trace_BinaryReader")
+    for cid, bad_i in planted_bad.items():
+        if planted_hit.get(cid) != [bad_i]:
+            raise vlib.ToolError("binding self-check failed: case %s must be rejected at event %d and nowhere else, "
+                                 "Trace_BinaryReader rejected %s" % (cid, bad_i, planted_hit.get(cid)))
 
     n_search = sum(1 for _ in open(search_trace))
     coverage = {
@@ -138,7 +266,7 @@ def run(ctx):
         "transitions": rep.get("ops_executed", 0),
         "traces_validated_against_impl": n_cases[0] + n_rec_cases,
         "samples": [json.loads(s) if len(s) < 4000 else json.loads(s)["path"] for s in sample_cases[:1]] +
-                   [e for e in events[1:4]],
+                   sample_events[1:4],
         "generated_cases": n_cases[0],
         "generated_ops_executed_on_impl": rep.get("ops_executed", 0),
         "op_type_outcome_classes": rep.get("op_type_outcome_classes", 0),
@@ -146,7 +274,14 @@ def run(ctx):
         "search_events_judged_relationally": n_search,
         "tlc_states_generated": mc.generated,
         "tlc_depth": mc.depth,
-        "binding_selfcheck": "corrupted event rejected",
+        "binding_selfcheck": "replay: impossible expectation rejected; judge: %d hand-written corrupted cases "
+                             "(value, base, tuple layout, cached read) each rejected at the corrupted event only"
+                             % len(planted_bad),
+        "vacuity_per_shape_generated": _per_shape(counters),
+        "vacuity_scope_base_generated": {k: v for k, v in counters.items() if not k.startswith("shape|")},
+        "vacuity_recorded_ops": {k[len("recop|"):]: v for k, v in rec_counters.items() if k.startswith("recop|")},
+        "vacuity_recorded_min_per_shape_op": min([rec_counters.get("rec|%s|%s" % (sh, op), 0)
+                                                  for sh in SHAPES for op in REC_OPS]),
         "exhaustive": True,
         "explanation": "exhaustive over the bounded model (config %s); recorded traces are random samples" % cfg,
     }
@@ -161,6 +296,7 @@ def replay(ctx, path):
         cp = ctx.path("case.ndjson")
         vlib.write_ndjson(cp, [case])
         rep = vlib.run_harness(binp, ["replay", cp, ctx.path("mm.ndjson"), ctx.path("st.ndjson")])
+        rep.pop("counters", None)
         mm = vlib.read_ndjson(ctx.path("mm.ndjson"))
         for m in mm:
             print("REPRODUCED want=%s got=%s" % (vlib.short(m["want"]), vlib.short(m["got"])))
